@@ -24,7 +24,10 @@ RULE = ("JSON values built from an adversarial alphabet (quotes, backslashes, \\
         "numerals drawn from the documented grammar and near misses of it, boundary integers (+-2^63), finite floats "
         "from random bit patterns, nested lists/maps with special keys; each value is encoded, compiled and evaluated "
         "by the real code (directly, as map key, inside a list, as the return / locals of a real ValueFunction, and as "
-        "the resource of a real ResourceFunction whose POST body is read off an in-memory API double); "
+        "the resource of a real ResourceFunction whose POST body is read off an in-memory API double; also in the "
+        "first of two / three inline overlays, in create.overlay, in a ValueFunction overlay's return (each with other "
+        "static values in resource / later overlays that must arrive too), and in the inputs / state of a step of a "
+        "real one-step Workflow); "
         "encoder outputs plus random mutations of them are lexed/parsed/evaluated by real celpy and by the model. "
         "A case is non-trivial when it contains a character that needs quoting, a numeral look-alike or a container; "
         "distinct by content")
@@ -206,6 +209,153 @@ def real_resource_function_post(v):
         if not isinstance(body, dict) or not isinstance(body.get("spec"), dict) or set(body["spec"]) != {"v"}:
             return ("shape", body)
         return ("ok", body["spec"]["v"])
+    except Exception as e:
+        return ("raises", type(e).__name__)
+    finally:
+        drivers.reset_all()
+
+
+RF_API = {"apiVersion": "example.dev/v1", "kind": "Widget", "plural": "widgets", "name": "w",
+          "namespace": "default", "owned": False}
+# other static values written next to the literal under test; they must arrive as written too
+SIDE = {"base": "from resource", "o2": ["second", 2, None], "o3": "third \\ \"x\""}
+
+
+def _rf_reconcile(spec, value_functions=None):
+    """prepare + reconcile a real ResourceFunction against the API double; -> ("ok", POST body) | failure class"""
+    import drivers
+
+    async def go():
+        from koreo import cache
+        from koreo.value_function.prepare import prepare_value_function
+        from koreo.value_function.structure import ValueFunction
+        for name, vf_spec in (value_functions or {}).items():
+            p = await cache.prepare_and_cache(ValueFunction, prepare_value_function,
+                                              {"name": name, "resourceVersion": "1"}, vf_spec)
+            if not isinstance(p, ValueFunction):
+                return ("prepfail", None)
+        fn, err = drivers.unwrap_prepared(await drivers.prepare_rf("rf-c11", spec))
+        if fn is None:
+            return ("prepfail", None)
+        cl = drivers.Cluster()
+        await drivers.reconcile_rf(fn, {}, cl)
+        posts = [c for c in cl.calls if c["method"] == "POST"]
+        if not posts:
+            return ("evalfail", None)
+        return ("ok", posts[0]["body"])
+
+    drivers.reset_all()
+    try:
+        return drivers.run_async(go())
+    except Exception as e:
+        return ("raises", type(e).__name__)
+    finally:
+        drivers.reset_all()
+
+
+def _at(body, path):
+    for k in path:
+        if not isinstance(body, dict) or k not in body:
+            return ("missing", None)
+        body = body[k]
+    return ("ok", body)
+
+
+def _rf_observe(spec, sides, value_functions=None):
+    """-> ("ok", value at spec.v of the POST body); ("side", which) if one of the other static values written in
+    resource / later overlays did not arrive as written"""
+    st, body = _rf_reconcile(spec, value_functions)
+    if st != "ok":
+        return (st, body)
+    st2, got = _at(body, ("spec", "v"))
+    if st2 != "ok":
+        return ("missing-from-POST-body", None)
+    for path, want in sides:
+        st3, other = _at(body, path)
+        if st3 != "ok" or delivered_ok(want, other) is not None:
+            return ("sibling-static-value-lost:" + ".".join(path), other)
+    return ("ok", got)
+
+
+def real_rf_overlays(v, n_overlays=3):
+    """the literal in the FIRST of two or three inline overlays; the later overlays write other keys"""
+    overlays = [{"overlay": {"spec": {"v": v}}}, {"overlay": {"spec": {"o2": SIDE["o2"]}}}]
+    sides = [(("spec", "base"), SIDE["base"]), (("spec", "o2"), SIDE["o2"])]
+    if n_overlays >= 3:
+        overlays.append({"overlay": {"metadata": {"labels": {"o3": SIDE["o3"]}}}})
+        sides.append((("metadata", "labels", "o3"), SIDE["o3"]))
+    spec = {"apiConfig": dict(RF_API), "resource": {"spec": {"base": SIDE["base"]}}, "overlays": overlays,
+            "create": {"delay": 1}}
+    return _rf_observe(spec, sides)
+
+
+def real_rf_create_overlay(v):
+    spec = {"apiConfig": dict(RF_API), "resource": {"spec": {"base": SIDE["base"]}},
+            "overlays": [{"overlay": {"spec": {"o2": SIDE["o2"]}}}],
+            "create": {"delay": 1, "overlay": {"spec": {"v": v}}}}
+    return _rf_observe(spec, [(("spec", "base"), SIDE["base"]), (("spec", "o2"), SIDE["o2"])])
+
+
+def real_rf_vf_overlay(v):
+    """the literal in the `return` of a ValueFunction used as the first overlay, an inline overlay after it"""
+    spec = {"apiConfig": dict(RF_API), "resource": {"spec": {"base": SIDE["base"]}},
+            "overlays": [{"overlayRef": {"kind": "ValueFunction", "name": "c11-ov"}},
+                         {"overlay": {"spec": {"o2": SIDE["o2"]}}}],
+            "create": {"delay": 1}}
+    return _rf_observe(spec, [(("spec", "base"), SIDE["base"]), (("spec", "o2"), SIDE["o2"])],
+                       value_functions={"c11-ov": {"return": {"spec": {"v": v}}}})
+
+
+def real_workflow(block, v):
+    """a one-step real Workflow: the literal in the step's `inputs` (read back from the echo function's result)
+    or in its `state` (read back from the Workflow's state)"""
+    import drivers
+
+    async def go():
+        import celpy
+        from koreo import cache
+        from koreo.value_function.prepare import prepare_value_function
+        from koreo.value_function.structure import ValueFunction
+        from koreo.workflow.prepare import prepare_workflow
+        from koreo.workflow.reconcile import reconcile_workflow
+        from koreo.workflow.structure import Workflow
+        p = await cache.prepare_and_cache(ValueFunction, prepare_value_function,
+                                          {"name": "c11-echo", "resourceVersion": "1"},
+                                          {"return": {"got": "=inputs"}})
+        if not isinstance(p, ValueFunction):
+            return ("prepfail", None)
+        step = {"label": "lit", "ref": {"kind": "ValueFunction", "name": "c11-echo"}, "inputs": {"side": SIDE["o3"]}}
+        step["inputs" if block == "inputs" else "state"] = (
+            {"v": v, "side": SIDE["o3"]} if block == "inputs" else {"v": v})
+        wf = await cache.prepare_and_cache(Workflow, prepare_workflow, {"name": "c11-wf", "resourceVersion": "1"},
+                                           {"steps": [step]})
+        if not isinstance(wf, Workflow):
+            return ("prepfail", None)
+        owner = ("default", {"apiVersion": "v1", "kind": "Parent", "name": "parent", "uid": "uid-parent",
+                             "blockOwnerDeletion": True, "controller": False})
+        res = await reconcile_workflow(api=drivers.Cluster(), workflow_key="c11-wf", owner=owner,
+                                       trigger=celpy.json_to_cel({}), workflow=wf)
+        from koreo.cel.encoder import convert_bools
+        if not isinstance(res.result, list):
+            return ("evalfail", None)
+        if block == "inputs":
+            out = convert_bools(res.result)
+            if len(out) != 1 or not isinstance(out[0], dict) or not isinstance(out[0].get("got"), dict):
+                return ("shape", out)
+            got = out[0]["got"]
+            if got.get("side") != SIDE["o3"]:
+                return ("sibling-static-value-lost:inputs.side", got.get("side"))
+        else:
+            if res.state_errors:
+                return ("evalfail", None)
+            got = convert_bools(res.state)
+        if not isinstance(got, dict) or "v" not in got:
+            return ("missing-from-" + block, None)
+        return ("ok", got["v"])
+
+    drivers.reset_all()
+    try:
+        return drivers.run_async(go())
     except Exception as e:
         return ("raises", type(e).__name__)
     finally:
@@ -578,7 +728,20 @@ def find_culprit(want, got):
     return ("value", want, r[1])
 
 
-ROUTES = ("direct", "vf-return", "vf-locals") + (("rf-post",) if RF_AVAILABLE else ())
+BASE_ROUTES = ("direct", "vf-return", "vf-locals") + (("rf-post",) if RF_AVAILABLE else ())
+# routes through a whole ResourceFunction pipeline / Workflow (a few ms each): the literal in the first of
+# two / three inline overlays, in create.overlay, in a ValueFunction overlay's return, in step inputs / state
+EXTRA_ROUTES = (("rf-overlay-first-of-3", "rf-overlay-first-of-2", "rf-create-overlay", "rf-vf-overlay-return",
+                 "wf-step-inputs", "wf-step-state") if RF_AVAILABLE else ())
+ROUTES = BASE_ROUTES + EXTRA_ROUTES
+
+
+def routes_for(k):
+    """all base routes plus three of the six extra routes in rotation (the corpus gets every route)"""
+    if not EXTRA_ROUTES:
+        return BASE_ROUTES
+    n = len(EXTRA_ROUTES)
+    return BASE_ROUTES + tuple(EXTRA_ROUTES[(k + j) % n] for j in (0, 2, 4))
 
 
 def describe(v):
@@ -602,6 +765,18 @@ def deliver(route, v):
         return real_value_function("locals", v)
     if route == "rf-post":
         return real_resource_function_post(v)
+    if route == "rf-overlay-first-of-3":
+        return real_rf_overlays(v, 3)
+    if route == "rf-overlay-first-of-2":
+        return real_rf_overlays(v, 2)
+    if route == "rf-create-overlay":
+        return real_rf_create_overlay(v)
+    if route == "rf-vf-overlay-return":
+        return real_rf_vf_overlay(v)
+    if route == "wf-step-inputs":
+        return real_workflow("inputs", v)
+    if route == "wf-step-state":
+        return real_workflow("state", v)
     raise ValueError(route)
 
 
@@ -623,6 +798,10 @@ def route_fails(route, v):
         return None   # prepare_expression treats a falsy spec as absent; the blocks never pass one alone
     st, got = deliver(route, v)
     if st != "ok":
+        if st.startswith(("missing-from-", "sibling-static-value-lost")):
+            # the pipeline drops a whole static value, whatever the literal is
+            return (f"{route} -> {st}", f"a static value written in the definition does not reach the "
+                                        f"object / result: {st} (literal under test: {describe(v)})", [st, got])
         return (f"{route}: {describe(v)} -> {st}", f"literal is not delivered at all: {st} {got!r}", [st, got])
     bad = find_culprit(v, got)
     if bad is None:
@@ -715,15 +894,17 @@ def gen_values(ctx: Ctx):
     for c in corpus_cases("C11"):
         if c.get("kind") == "value":
             yield c["value"], ROUTES
+    n = 0
     for s in FIXED_STRINGS:
         for shape in ("value", "key", "list", "mapval"):
             if s.startswith("=") and shape != "key":
                 continue
-            yield wrap(shape, s), ROUTES
-    for i in BOUNDARY_INTS + OUT_OF_RANGE_INTS:
-        yield [i], ROUTES
-    for x in FIXED_FLOATS:
-        yield x, ROUTES
+            n += 1
+            yield wrap(shape, s), (ROUTES if shape == "value" and not quick else routes_for(n))
+    for n, i in enumerate(BOUNDARY_INTS + OUT_OF_RANGE_INTS):
+        yield [i], routes_for(n)
+    for n, x in enumerate(FIXED_FLOATS):
+        yield x, routes_for(n)
         yield {"f": [x, -x]}, ("direct",)
     # the unit tests' pinned literals
     yield {"a_string": "testing", "a_quoted_string": 'you should "test"', "an_int_str": "29", "a_float": 82.34,
@@ -732,11 +913,11 @@ def gen_values(ctx: Ctx):
     for k in range(n_str):
         s = rand_string(rng, allow_eq=False)
         shape = ("value", "key", "list", "mapval")[k % 4]
-        yield wrap(shape, s), (ROUTES if k % 3 == 0 else ("direct",))
+        yield wrap(shape, s), (routes_for(k // 3) if k % 3 == 0 else ("direct",))
     n_val = 500 if quick else 6000
     for k in range(n_val):
         v = rand_value(rng)
-        yield v, (ROUTES if k % 4 == 0 else ("direct",))
+        yield v, (routes_for(k // 4) if k % 4 == 0 else ("direct",))
     n_f = 150 if quick else 4000
     for _ in range(n_f):
         yield [rand_float(rng)], ("direct",)
